@@ -26,6 +26,7 @@ build_variant() {
   local flags="-tags verif"
   case "$variant" in
     race) flags="$flags -race";;
+    asan) flags="$flags -asan";;
     skew) gen_overlay || return 1; flags="$flags -overlay $VERIF_ROOT/.build/overlay/overlay.json";;
   esac
   (cd "$VERIF_ROOT/harness" && go build $mf $flags -o "$out" "./cmd/$name") 
